@@ -20,7 +20,7 @@ Lemma step_acts p c s a s' x :
   exists x' news,
     pj noG s' = upd (pj noG s) a (noG x') ++ map noG news /\
     Forall (fun y => a_pc y = PEntry /\ a_parent y = Some a /\ a_gerr y = None /\ a_kids y = [] /\
-                     a_regkey y = None /\ a_defers y = []) news.
+                     a_regkey y = None /\ a_defers y = [] /\ (a_kind y = KDep -> a_pc x = PDepsFork)) news.
 Proof.
   intros Hx H.
   pose proof (pj_lt noG _ _ _ Hx) as Hlt.
@@ -36,11 +36,11 @@ Proof.
   - eexists; eexists [_]. split.
     + unfold pj at 1. rewrite acts_set_act, map_upd. simpl. rewrite release_acts, map_app.
       rewrite upd_app_l by exact Hlt. reflexivity.
-    + repeat constructor.
+    + repeat constructor; simpl; discriminate.
   - eexists; eexists [_]. split.
     + unfold pj at 1. rewrite acts_set_act, map_upd. simpl. rewrite release_acts, map_app.
       rewrite upd_app_l by exact Hlt. reflexivity.
-    + repeat constructor.
+    + repeat constructor; simpl; discriminate.
 Qed.
 
 (* consequences *)
@@ -83,7 +83,8 @@ Qed.
 (* fresh activations *)
 Lemma step_new p c s a s' j y :
   step p c s a = Some s' -> length (acts s) <= j -> get_act s' j = Some y ->
-  a_pc y = PEntry /\ a_parent y = Some a /\ a_kids y = [] /\ a_regkey y = None /\ a_defers y = [].
+  a_pc y = PEntry /\ a_parent y = Some a /\ a_kids y = [] /\ a_regkey y = None /\ a_defers y = [] /\
+  (a_kind y = KDep -> exists x, get_act s a = Some x /\ a_pc x = PDepsFork).
 Proof.
   intros H Hj Hy.
   destruct (get_act s a) as [x|] eqn:Hx; [|unfold step in H; rewrite Hx in H; discriminate].
@@ -92,6 +93,7 @@ Proof.
   rewrite nth_error_app2 in Hn by (rewrite upd_length; unfold pj; rewrite map_length; exact Hj).
   rewrite upd_length in Hn. unfold pj in Hn. rewrite map_length, nth_error_map in Hn.
   destruct (nth_error news (j - length (acts s))) as [z|] eqn:Ez; [|discriminate].
-  injection Hn as Hn. rewrite Forall_forall in Hf. destruct (Hf z (nth_error_In _ _ Ez)) as (Hz1 & Hz2 & _ & Hz4 & Hz5 & Hz6).
-  unfold noG in Hn. inversion Hn. repeat split; congruence.
+  injection Hn as Hn. rewrite Forall_forall in Hf. destruct (Hf z (nth_error_In _ _ Ez)) as (Hz1 & Hz2 & _ & Hz4 & Hz5 & Hz6 & Hz7).
+  unfold noG in Hn. inversion Hn. repeat split; try congruence.
+  intros Hk. exists x. split; [reflexivity|]. apply Hz7. congruence.
 Qed.
